@@ -9,5 +9,7 @@ import (
 
 func htmlEntityDecode(data string) (string, bool, error) {
 	transformedData := html.UnescapeString(data)
-	return transformedData, len(data) != len(transformedData), nil
+	// compare the contents: a numeric reference can decode to as many bytes as it took
+	// ("&#0" becomes the three bytes of U+FFFD)
+	return transformedData, data != transformedData, nil
 }
